@@ -323,7 +323,7 @@ package jet
 //@   check [a-value-method-of-a-nil-pointer-is-an-error-not-a-callable] {C12,C06} result1 == nil && RvValid(result0) && result0 == lastret("(reflect.Value).MethodByName", 0) && lastret("indirect", 1) && RvKind(lastret("indirect", 0)) == 22 ==> !lastret("(reflect.Type).MethodByName", 1)
 //@   callsite (reflect.Type).MethodByName 0 requires [the-value-type-is-asked-for-the-same-method-name] {C12,C06} t == TElem(RvTypeOf(lastret("indirect", 0))) && name == indexAsStr
 //@   callsite (reflect.Value).MethodByName 0 requires [methods-are-looked-up-under-the-index-name] {C06} name == indexAsStr
-//@   callsite (reflect.Value).Kind 5 requires [a-named-member-is-first-looked-up-as-a-method] {C06} caller.indexIsStr ==> ncalls("(reflect.Value).MethodByName") == 1
+//@   check [a-named-member-is-first-looked-up-as-a-method] {C06} ncalls("indirect") == 1 && !(lastret("indirect", 1) && RvKind(lastret("indirect", 0)) == 20) && (indexAsStr != "" || RvKind(index) == 24) ==> ncalls("(reflect.Value).MethodByName") == 1
 //@   callsite buildCache 0 requires [the-cache-is-built-for-the-values-type] {C06} typ == lastret("(reflect.Value).Type", 0) && fresh(cache) && len(parent) == 0
 //@ func fieldByIndex
 //@   props C06 C12 C10 C11 C17
